@@ -569,7 +569,12 @@ func driveRace(rc *RunCtx) {
 					_, errs[i] = j.n.Party.UpdateFromBytes(j.e.Wire, &tss.PartyID{MessageWrapper_PartyID: from.MessageWrapper_PartyID, Index: 1000 + from.Index}, j.e.Bcast)
 				case "waiting":
 					// (String()/Running() are not among the entry points the property lists: not called here)
-					_ = j.n.Party.WaitingFor()
+					// the answer is read after the call returned, as a monitoring goroutine would
+					for _, p := range j.n.Party.WaitingFor() {
+						if p != nil && p.Index < 0 {
+							errs[i] = j.n.Party.WrapError(fmt.Errorf("WaitingFor returned a party id with index %d", p.Index))
+						}
+					}
 				}
 			}(i, j)
 		}
